@@ -91,10 +91,10 @@ Singles == {Probe(p, t, s, Small, Big) : p \in 1..3, t \in {CalTNumber, CalTRang
                                          s \in Plain \cup Hopeless \cup OpenStrs \cup Wide}
 Muts == {Probe(p, CalTNumber, s, Small, Big) : p \in 1..3, s \in Mutants(SeedA, Junk2) \cup Mutants(SeedB, Junk2)}
 \* order of every pair of spellings: a as min (or max), b as value
-Pairs == {In(Some(CalTNumber), Some(a), Missing, Some(c)) : a \in Wide \cup Plain, c \in Wide \cup Plain}
-         \cup {In(Some(CalTNumber), Missing, Some(a), Some(c)) : a \in Wide, c \in Wide \cup Plain}
+PairsMin == {In(Some(CalTNumber), Some(a), Missing, Some(c)) : a \in Wide \cup Plain, c \in Wide \cup Plain}
+PairsMax == {In(Some(CalTNumber), Missing, Some(a), Some(c)) : a \in Wide, c \in Wide \cup Plain}
 
-Cases == SetToSeq(Triples) \o SetToSeq(RangeTriples) \o SetToSeq(Singles) \o SetToSeq(Muts) \o SetToSeq(Pairs)
+Cases == SetToSeq(Triples) \o SetToSeq(RangeTriples) \o SetToSeq(Singles) \o SetToSeq(Muts) \o SetToSeq(PairsMin) \o SetToSeq(PairsMax)
 NB == NumBatches(Len(Cases), BatchSize)
 ASSUME PrintT(<<"cases", Len(Cases), "batches", NB>>)
 
